@@ -1,4 +1,4 @@
 From Coq Require Import ZArith List Bool.
 From PAV Require Import Base.Res Model.C14 Proofs.C14.
-Theorem C14_stub : True. Proof. exact stub. Qed.
+Theorem C14_stub : True. Proof. exact I. Qed.
 Print Assumptions C14_stub.
